@@ -29,6 +29,9 @@ Proof.
   rewrite (N.eqb_sym (to_lower x)), IH. reflexivity.
 Qed.
 
+Lemma ci_prefix_nil l : ci_prefix l [] = true.
+Proof. destruct l; reflexivity. Qed.
+
 Lemma find_eq_shift l : forall i, find_eq l i = match find_eq l 0 with Some k => Some (k + i) | None => None end.
 Proof.
   induction l as [|c r IH]; intros i; cbn [find_eq]; [reflexivity|].
@@ -84,7 +87,7 @@ Proof.
   induction d as [|y d IH]; intros item H.
   - destruct item as [|x item]; [reflexivity|].
     cbn [find_eq] in H. cbn [ci_eqb ci_prefix app orb]. rewrite to_lower_61.
-    destruct (x =? 61) eqn:E; [reflexivity|].
+    destruct (x =? 61) eqn:E; [now rewrite ci_prefix_nil|].
     rewrite (find_eq_shift item (0 + 1)) in H.
     destruct (find_eq item 0) as [k|].
     + cbn [takeN] in H. replace (k + (0 + 1) =? 0) with false in H by lia. cbn in H. discriminate.
@@ -138,3 +141,392 @@ Proof.
     apply filter_In. split; [exact Hin|cbn; apply N.eqb_refl]. }
   rewrite Hn in Hnm. destruct Hnm as [Hd|[]]. subst nm. now apply takeN_prefix_directive.
 Qed.
+
+(* ================================================================ one iteration of HttpHdrCc::parse *)
+Lemma isset_no_store c : cc_isset c CC_NO_STORE = m_no_store c. Proof. reflexivity. Qed.
+Lemma isset_private c : cc_isset c CC_PRIVATE = m_private c. Proof. reflexivity. Qed.
+Lemma isset_public c : cc_isset c CC_PUBLIC = m_public c. Proof. reflexivity. Qed.
+Lemma isset_must_revalidate c : cc_isset c CC_MUST_REVALIDATE = m_must_revalidate c. Proof. reflexivity. Qed.
+Lemma isset_s_maxage c : cc_isset c CC_S_MAXAGE = is_some (v_s_maxage c). Proof. reflexivity. Qed.
+
+Ltac cc_consts :=
+  unfold CC_PUBLIC, CC_PRIVATE, CC_NO_CACHE, CC_NO_STORE, CC_NO_TRANSFORM, CC_MUST_REVALIDATE, CC_PROXY_REVALIDATE,
+         CC_MAX_AGE, CC_S_MAXAGE, CC_MAX_STALE, CC_MIN_FRESH, CC_ONLY_IF_CACHED, CC_STALE_IF_ERROR, CC_IMMUTABLE,
+         CC_OTHER, CC_ENUM_END in *.
+
+(* case analysis following the if-cascade of cc_step *)
+Ltac cc_cascade t :=
+  destruct (cc_isset _ t && negb (t =? CC_OTHER)) eqn:Edup;
+  [| destruct (t =? CC_MAX_AGE) eqn:E1;
+     [| destruct (t =? CC_S_MAXAGE) eqn:E2;
+        [| destruct (t =? CC_MAX_STALE) eqn:E3;
+           [| destruct (t =? CC_MIN_FRESH) eqn:E4;
+              [| destruct (t =? CC_STALE_IF_ERROR) eqn:E5;
+                 [| destruct (t =? CC_PRIVATE) eqn:E6;
+                    [| destruct (t =? CC_NO_CACHE) eqn:E7 ]]]]]]].
+
+Lemma step_no_store c itc :
+  m_no_store (cc_step c itc) = m_no_store c || (item_type (fst itc) =? CC_NO_STORE).
+Proof.
+  destruct itc as [it ctx]. cbn [fst]. unfold cc_step. set (t := item_type it). clearbody t.
+  destruct (t =? CC_NO_STORE) eqn:Ens.
+  - apply N.eqb_eq in Ens. subst t. rewrite isset_no_store.
+    destruct (m_no_store c) eqn:Em; cbn -[cc_isset parse_quoted int_arg]; [exact Em|reflexivity].
+  - rewrite orb_false_r. cc_cascade t; cbn [m_no_store]; try reflexivity; try (rewrite Ens; apply orb_false_r).
+Qed.
+
+Lemma step_private c itc :
+  m_private (cc_step c itc) = m_private c || (item_type (fst itc) =? CC_PRIVATE).
+Proof.
+  destruct itc as [it ctx]. cbn [fst]. unfold cc_step. set (t := item_type it). clearbody t.
+  destruct (t =? CC_PRIVATE) eqn:Ens.
+  - apply N.eqb_eq in Ens. subst t. rewrite isset_private.
+    destruct (m_private c) eqn:Em; cbn -[cc_isset parse_quoted int_arg]; [exact Em|reflexivity].
+  - rewrite orb_false_r. cc_cascade t; cbn [m_private]; try reflexivity; discriminate.
+Qed.
+
+Lemma step_public c itc :
+  m_public (cc_step c itc) = m_public c || (item_type (fst itc) =? CC_PUBLIC).
+Proof.
+  destruct itc as [it ctx]. cbn [fst]. unfold cc_step. set (t := item_type it). clearbody t.
+  destruct (t =? CC_PUBLIC) eqn:Ens.
+  - apply N.eqb_eq in Ens. subst t. rewrite isset_public.
+    destruct (m_public c) eqn:Em; cbn -[cc_isset parse_quoted int_arg]; [exact Em|reflexivity].
+  - rewrite orb_false_r. cc_cascade t; cbn [m_public]; try reflexivity; try (rewrite Ens; apply orb_false_r).
+Qed.
+
+Lemma step_must_revalidate c itc :
+  m_must_revalidate (cc_step c itc) = m_must_revalidate c || (item_type (fst itc) =? CC_MUST_REVALIDATE).
+Proof.
+  destruct itc as [it ctx]. cbn [fst]. unfold cc_step. set (t := item_type it). clearbody t.
+  destruct (t =? CC_MUST_REVALIDATE) eqn:Ens.
+  - apply N.eqb_eq in Ens. subst t. rewrite isset_must_revalidate.
+    destruct (m_must_revalidate c) eqn:Em; cbn -[cc_isset parse_quoted int_arg]; [exact Em|reflexivity].
+  - rewrite orb_false_r. cc_cascade t; cbn [m_must_revalidate]; try reflexivity; try (rewrite Ens; apply orb_false_r).
+Qed.
+
+(* s-maxage: the bit can only come from an s-maxage item (a malformed one leaves it clear) *)
+Lemma step_s_maxage_sound c itc :
+  is_some (v_s_maxage (cc_step c itc)) = true ->
+  is_some (v_s_maxage c) = true \/ item_type (fst itc) = CC_S_MAXAGE.
+Proof.
+  destruct itc as [it ctx]. cbn [fst]. unfold cc_step. set (t := item_type it). clearbody t.
+  cc_cascade t; cbn [v_s_maxage]; intros H; try (left; exact H).
+  right. now apply N.eqb_eq.
+Qed.
+
+(* ================================================================ the whole list *)
+Definition has_type (id : N) (l : list (bytes * bytes)) : bool := existsb (fun itc => item_type (fst itc) =? id) l.
+
+Lemma fold_no_store l : forall c, m_no_store (fold_left cc_step l c) = m_no_store c || has_type CC_NO_STORE l.
+Proof.
+  induction l as [|x l IH]; intros c; cbn [fold_left has_type existsb]; [now rewrite orb_false_r|].
+  rewrite IH, step_no_store. unfold has_type. now rewrite orb_assoc.
+Qed.
+Lemma fold_private l : forall c, m_private (fold_left cc_step l c) = m_private c || has_type CC_PRIVATE l.
+Proof.
+  induction l as [|x l IH]; intros c; cbn [fold_left has_type existsb]; [now rewrite orb_false_r|].
+  rewrite IH, step_private. unfold has_type. now rewrite orb_assoc.
+Qed.
+Lemma fold_public l : forall c, m_public (fold_left cc_step l c) = m_public c || has_type CC_PUBLIC l.
+Proof.
+  induction l as [|x l IH]; intros c; cbn [fold_left has_type existsb]; [now rewrite orb_false_r|].
+  rewrite IH, step_public. unfold has_type. now rewrite orb_assoc.
+Qed.
+Lemma fold_must_revalidate l : forall c,
+  m_must_revalidate (fold_left cc_step l c) = m_must_revalidate c || has_type CC_MUST_REVALIDATE l.
+Proof.
+  induction l as [|x l IH]; intros c; cbn [fold_left has_type existsb]; [now rewrite orb_false_r|].
+  rewrite IH, step_must_revalidate. unfold has_type. now rewrite orb_assoc.
+Qed.
+Lemma fold_s_maxage_sound l : forall c, is_some (v_s_maxage (fold_left cc_step l c)) = true ->
+  is_some (v_s_maxage c) = true \/ has_type CC_S_MAXAGE l = true.
+Proof.
+  induction l as [|x l IH]; intros c H; cbn [fold_left] in H; [now left|].
+  destruct (IH _ H) as [H1|H1].
+  - destruct (step_s_maxage_sound _ _ H1) as [H2|H2]; [now left|right].
+    cbn [has_type existsb]. rewrite H2, N.eqb_refl. reflexivity.
+  - right. cbn [has_type existsb]. fold (has_type CC_S_MAXAGE l). rewrite H1. apply orb_true_r.
+Qed.
+
+(* has_type in terms of the items and the directive vocabulary *)
+Lemma has_type_directive d id s : no_eq d = true -> cc_type_by_name d = id ->
+  (exists item, In item (cc_items s) /\ is_directive d item = true) -> has_type id (ritems s) = true.
+Proof.
+  intros Hd Hid [item [Hin Hdir]]. unfold has_type. apply existsb_exists.
+  unfold cc_items in Hin. apply in_map_iff in Hin. destruct Hin as [itc [Hf Hin]].
+  exists itc. split; [exact Hin|]. rewrite Hf, (directive_type d Hd item Hdir), Hid. apply N.eqb_refl.
+Qed.
+Lemma has_type_directive_conv d id s : id <> CC_OTHER -> names_of id = [d] ->
+  has_type id (ritems s) = true -> exists item, In item (cc_items s) /\ is_directive d item = true.
+Proof.
+  intros Hne Hn H. unfold has_type in H. apply existsb_exists in H. destruct H as [itc [Hin Ht]].
+  apply N.eqb_eq in Ht. exists (fst itc). split.
+  - unfold cc_items. apply in_map. exact Hin.
+  - exact (type_is_directive _ _ _ Ht Hne Hn).
+Qed.
+
+(* ---------- completeness: a no-store / private element is always seen ---------- *)
+Theorem parse_sees_no_store s :
+  (exists item, In item (cc_items s) /\ is_directive d_no_store item = true) ->
+  exists c, cc_parse s = Some c /\ m_no_store c = true.
+Proof.
+  intros H. pose proof (has_type_directive d_no_store CC_NO_STORE s eq_refl tbl_no_store H) as Ht.
+  assert (Hb : m_no_store (cc_fold s) = true) by (unfold cc_fold; rewrite fold_no_store, Ht; apply orb_true_r).
+  exists (cc_fold s). split; [|exact Hb]. unfold cc_parse, cc_mask_nonzero. rewrite Hb.
+  now rewrite !orb_true_r.
+Qed.
+Theorem parse_sees_private s :
+  (exists item, In item (cc_items s) /\ is_directive d_private item = true) ->
+  exists c, cc_parse s = Some c /\ m_private c = true.
+Proof.
+  intros H. pose proof (has_type_directive d_private CC_PRIVATE s eq_refl tbl_private H) as Ht.
+  assert (Hb : m_private (cc_fold s) = true) by (unfold cc_fold; rewrite fold_private, Ht; apply orb_true_r).
+  exists (cc_fold s). split; [|exact Hb]. unfold cc_parse, cc_mask_nonzero. rewrite Hb.
+  now rewrite !orb_true_r.
+Qed.
+
+(* ---------- soundness: public / must-revalidate / s-maxage bits come from such an element ---------- *)
+Theorem parse_permission_sound s c : cc_parse s = Some c ->
+  (m_public c || m_must_revalidate c || is_some (v_s_maxage c)) = true ->
+  exists item, In item (cc_items s) /\
+    (is_directive d_public item || is_directive d_must_revalidate item || is_directive d_s_maxage item) = true.
+Proof.
+  unfold cc_parse. destruct (cc_mask_nonzero (cc_fold s)); [|discriminate]. intros Hc H. injection Hc as <-.
+  unfold cc_fold in H.
+  destruct (m_public _) eqn:E1.
+  { rewrite fold_public in E1. cbn [cc_empty m_public orb] in E1.
+    destruct (has_type_directive_conv d_public CC_PUBLIC s ltac:(discriminate) only_name_public E1) as [it [Hi Hd]].
+    exists it. split; [exact Hi|]. now rewrite Hd. }
+  destruct (m_must_revalidate _) eqn:E2.
+  { rewrite fold_must_revalidate in E2. cbn [cc_empty m_must_revalidate orb] in E2.
+    destruct (has_type_directive_conv d_must_revalidate CC_MUST_REVALIDATE s ltac:(discriminate) only_name_must_revalidate E2)
+      as [it [Hi Hd]].
+    exists it. split; [exact Hi|]. rewrite Hd. now rewrite orb_true_r. }
+  cbn [orb] in H. destruct (fold_s_maxage_sound _ _ H) as [H1|H1]; [cbn in H1; discriminate|].
+  destruct (has_type_directive_conv d_s_maxage CC_S_MAXAGE s ltac:(discriminate) only_name_s_maxage H1) as [it [Hi Hd]].
+  exists it. split; [exact Hi|]. rewrite Hd. now rewrite !orb_true_r.
+Qed.
+
+(* ================================================================ the decision *)
+Local Open Scope Z_scope.
+
+Definition cached (d : decision) : bool :=
+  match d with CachePositively | CacheNegatively => true | _ => false end.
+
+(* what HttpStateData::reusableReply requires before it answers cachePositively / cacheNegatively *)
+Lemma reusable_reply_cached cf h q p e now :
+  cached (reusable_reply cf h q p e now) = true ->
+  released_earlier h = false /\ q_cachable q = true /\ saw_date_go_back h = false /\ surrogate_no_store h = false /\
+  (ignore_cache_control h = false ->
+     occ (q_cc q) m_no_store false = false /\ occ (p_cc p) has_no_cache_with_params false = false /\
+     occ (p_cc p) m_no_store false = false /\ occ (p_cc p) m_private false = false) /\
+  (q_flag_auth q = true ->
+     ignore_cache_control h = false /\
+     exists c, p_cc p = Some c /\
+       (m_public c || m_must_revalidate c || (use_http_violations && has_no_cache_without_params c)
+        || is_some (v_s_maxage c)) = true).
+Proof.
+  unfold reusable_reply, refresh_override. cbn [negb]. rewrite !andb_true_r.
+  destruct (released_earlier h) eqn:E0; [cbn; discriminate|]. cbn [orb].
+  destruct (q_cachable q) eqn:E1; [|cbn; discriminate]. cbn [negb].
+  destruct (saw_date_go_back h) eqn:E2; [cbn; discriminate|].
+  destruct (surrogate_no_store h) eqn:E3; [cbn; discriminate|].
+  destruct (negb (ignore_cache_control h) && occ (q_cc q) m_no_store false) eqn:E4; [cbn; discriminate|].
+  destruct (negb (ignore_cache_control h) && occ (p_cc p) has_no_cache_with_params false) eqn:E5; [cbn; discriminate|].
+  destruct (negb (ignore_cache_control h) && occ (p_cc p) m_no_store false) eqn:E6; [cbn; discriminate|].
+  destruct (negb (ignore_cache_control h) && occ (p_cc p) m_private false) eqn:E7; [cbn; discriminate|].
+  intros H.
+  repeat split; try reflexivity.
+  - intros Hi. rewrite Hi in *. cbn [negb andb] in *. repeat split; assumption.
+  - destruct (q_flag_auth q) eqn:Ea; [|discriminate].
+    destruct (p_cc p) as [c|]; [|cbn in H; discriminate].
+    destruct (ignore_cache_control h); [cbn in H; discriminate|reflexivity].
+  - intros Ha. rewrite Ha in H.
+    destruct (p_cc p) as [c|]; [|cbn in H; discriminate].
+    destruct (ignore_cache_control h); [cbn in H; discriminate|].
+    exists c. split; [reflexivity|].
+    destruct (m_public c); [reflexivity|].
+    destruct (m_must_revalidate c); [reflexivity|].
+    destruct (use_http_violations && has_no_cache_without_params c); [reflexivity|].
+    destruct (is_some (v_s_maxage c)); [reflexivity|]. cbn in H. discriminate.
+Qed.
+
+Lemma reusable_reply_negative cf h q p e now :
+  reusable_reply cf h q p e now = CacheNegatively -> 0 < negative_ttl cf.
+Proof.
+  unfold reusable_reply.
+  repeat match goal with
+         | |- (if ?b then _ else _) = _ -> _ => destruct b eqn:?; try discriminate
+         | |- (let _ := _ in _) = _ -> _ => cbv zeta
+         end; intros _; lia.
+Qed.
+
+Lemma first_entry_public cf h q p now :
+  e_public (first_entry cf h q p now) = true ->
+  exists e0, cached (reusable_reply cf h q p e0 now) = true.
+Proof.
+  unfold first_entry. destruct (timestamps p now) as [ts exp]. cbn [e_public].
+  match goal with |- context [reusable_reply cf h q p ?e now] => exists e end.
+  destruct (reusable_reply _ _ _ _ _ _); [discriminate|reflexivity|reflexivity|discriminate].
+Qed.
+
+Lemma first_entry_negcached cf h q p now :
+  negative_ttl cf <= 0 -> e_negcached (first_entry cf h q p now) = false.
+Proof.
+  intros Hn. unfold first_entry. destruct (timestamps p now) as [ts exp]. cbn [e_negcached].
+  match goal with |- context [reusable_reply cf h q p ?e now] => destruct (reusable_reply cf h q p e now) eqn:E end;
+    try reflexivity.
+  apply reusable_reply_negative in E. lia.
+Qed.
+
+Lemma first_entry_always cf h q p now c :
+  ignore_cache_control h = false -> p_cc p = Some c ->
+  e_revalidate_always (first_entry cf h q p now) = has_no_cache_without_params c || m_private c.
+Proof.
+  intros Hi Hc. unfold first_entry. destruct (timestamps p now) as [ts exp]. cbn [e_revalidate_always].
+  rewrite Hi, Hc. reflexivity.
+Qed.
+
+Lemma offline_off : cfg_offline_mode = false. Proof. reflexivity. Qed.
+
+(* the second request: an entry that is not public is never found *)
+Lemma second_not_public cf e q now2 :
+  e_public e = false -> second_request cf e q now2 = (if q_only_if_cached q then Refused else Miss).
+Proof.
+  intros H. unfold second_request. rewrite H. cbn [negb]. destruct (q_flag_no_cache q); reflexivity.
+Qed.
+
+(* ENTRY_REVALIDATE_ALWAYS forces refreshCheck to answer STALE_MUST_REVALIDATE *)
+Lemma refresh_check_always cf e rq now delta :
+  e_revalidate_always e = true -> refresh_check cf e rq now delta = STALE_MUST_REVALIDATE.
+Proof.
+  intros H. unfold refresh_check.
+  match goal with |- context [refresh_staleness ?a ?b ?c ?d] => destruct (refresh_staleness a b c d) as [st sf] end.
+  rewrite H. reflexivity.
+Qed.
+
+Lemma second_revalidate_always cf e q now2 :
+  e_revalidate_always e = true -> e_negcached e = false -> second_request cf e q now2 <> Hit.
+Proof.
+  intros Ha Hn. unfold second_request. rewrite Hn, (refresh_check_always cf e (Some q) now2 0 Ha), offline_off.
+  cbn [andb negb reason_is_fresh].
+  destruct (q_flag_no_cache q); destruct (q_only_if_cached q); destruct (negb (e_public e));
+    destruct (e_last_modified e <? 0); discriminate.
+Qed.
+
+(* ================================================================ C11 *)
+Definition has_directive (d : bytes) (vals : list bytes) : Prop :=
+  exists item, In item (cc_items (join_values vals)) /\ is_directive d item = true.
+
+Lemma join_nil_items : cc_items (join_values []) = []. Proof. reflexivity. Qed.
+
+Lemma cc_of_values_no_store vals : has_directive d_no_store vals ->
+  exists c, cc_of_values vals = Some c /\ m_no_store c = true.
+Proof.
+  intros H. unfold cc_of_values. destruct vals as [|v r].
+  - destruct H as [it [Hin _]]. rewrite join_nil_items in Hin. destruct Hin.
+  - exact (parse_sees_no_store _ H).
+Qed.
+Lemma cc_of_values_private vals : has_directive d_private vals ->
+  exists c, cc_of_values vals = Some c /\ m_private c = true.
+Proof.
+  intros H. unfold cc_of_values. destruct vals as [|v r].
+  - destruct H as [it [Hin _]]. rewrite join_nil_items in Hin. destruct Hin.
+  - exact (parse_sees_private _ H).
+Qed.
+
+(* not stored -> the second request goes to the origin unconditionally (or the first one was never forwarded) *)
+Lemma not_cached_outcome cf h q p now gap :
+  (forall e0, cached (reusable_reply cf h q p e0 now) = false) ->
+  two_requests cf h q p now gap = (if q_only_if_cached q then NotForwarded else Miss).
+Proof.
+  intros H. unfold two_requests. destruct (q_only_if_cached q) eqn:Eo; [reflexivity|].
+  rewrite second_not_public, Eo; [reflexivity|].
+  destruct (e_public (first_entry cf h q p now)) eqn:E; [|reflexivity].
+  destruct (first_entry_public _ _ _ _ _ E) as [e0 He0]. rewrite H in He0. discriminate.
+Qed.
+
+Theorem response_no_store_never_reused cf h q p now gap :
+  ignore_cache_control h = false -> has_directive d_no_store (p_cc_vals p) ->
+  two_requests cf h q p now gap = (if q_only_if_cached q then NotForwarded else Miss).
+Proof.
+  intros Hi Hd. apply not_cached_outcome. intros e0.
+  destruct (cached (reusable_reply cf h q p e0 now)) eqn:E; [|reflexivity].
+  destruct (reusable_reply_cached _ _ _ _ _ _ E) as (_ & _ & _ & _ & Hcc & _).
+  destruct (Hcc Hi) as (_ & _ & Hns & _).
+  destruct (cc_of_values_no_store _ Hd) as [c [Hc Hb]]. unfold p_cc in Hns. rewrite Hc in Hns. cbn [occ] in Hns.
+  congruence.
+Qed.
+
+Theorem response_private_never_reused cf h q p now gap :
+  ignore_cache_control h = false -> has_directive d_private (p_cc_vals p) ->
+  two_requests cf h q p now gap = (if q_only_if_cached q then NotForwarded else Miss).
+Proof.
+  intros Hi Hd. apply not_cached_outcome. intros e0.
+  destruct (cached (reusable_reply cf h q p e0 now)) eqn:E; [|reflexivity].
+  destruct (reusable_reply_cached _ _ _ _ _ _ E) as (_ & _ & _ & _ & Hcc & _).
+  destruct (Hcc Hi) as (_ & _ & _ & Hpr).
+  destruct (cc_of_values_private _ Hd) as [c [Hc Hb]]. unfold p_cc in Hpr. rewrite Hc in Hpr. cbn [occ] in Hpr.
+  congruence.
+Qed.
+
+(* request no-store: flags.cachable is vetoed, the entry is created with RELEASE_REQUEST; no hypothesis on hstate *)
+Theorem request_no_store_never_reused cf h q p now gap :
+  has_directive d_no_store (q_cc_vals q) ->
+  two_requests cf h q p now gap = (if q_only_if_cached q then NotForwarded else Miss).
+Proof.
+  intros Hd. apply not_cached_outcome. intros e0.
+  destruct (cached (reusable_reply cf h q p e0 now)) eqn:E; [|reflexivity].
+  destruct (reusable_reply_cached _ _ _ _ _ _ E) as (_ & Hq & _).
+  destruct (cc_of_values_no_store _ Hd) as [c [Hc Hb]].
+  unfold q_cachable, q_cc in Hq. rewrite Hc in Hq. cbn [occ] in Hq. rewrite Hb in Hq.
+  rewrite andb_false_r in Hq. discriminate.
+Qed.
+
+(* Authorization: a hit needs public, must-revalidate or s-maxage in the response (default negative_ttl = 0) *)
+Theorem authorization_hit_needs_permission cf h q p now gap :
+  negative_ttl cf <= 0 -> q_has_authorization q = true ->
+  two_requests cf h q p now gap = Hit ->
+  has_directive d_public (p_cc_vals p) \/ has_directive d_must_revalidate (p_cc_vals p)
+  \/ has_directive d_s_maxage (p_cc_vals p).
+Proof.
+  intros Hneg Hauth Hhit. unfold two_requests in Hhit.
+  destruct (q_only_if_cached q) eqn:Eo; [discriminate|].
+  destruct (e_public (first_entry cf h q p now)) eqn:Ep.
+  2:{ rewrite second_not_public, Eo in Hhit by exact Ep. discriminate. }
+  destruct (first_entry_public _ _ _ _ _ Ep) as [e0 He0].
+  destruct (reusable_reply_cached _ _ _ _ _ _ He0) as (_ & _ & _ & _ & _ & Ha).
+  assert (Hfa : q_flag_auth q = true) by (unfold q_flag_auth; rewrite Hauth; reflexivity).
+  destruct (Ha Hfa) as (Hi & c & Hc & Hperm).
+  destruct (m_public c || m_must_revalidate c || is_some (v_s_maxage c)) eqn:Eperm.
+  - (* the permission is in the text *)
+    unfold p_cc, cc_of_values in Hc. destruct (p_cc_vals p) as [|v r] eqn:Ev; [discriminate|].
+    destruct (parse_permission_sound _ _ Hc Eperm) as [it [Hin Hd]].
+    destruct (is_directive d_public it) eqn:D1; [left; exists it; now split|].
+    destruct (is_directive d_must_revalidate it) eqn:D2; [right; left; exists it; now split|].
+    right; right. exists it. split; [exact Hin|exact Hd].
+  - (* only the USE_HTTP_VIOLATIONS no-cache exemption: stored with ENTRY_REVALIDATE_ALWAYS, never a hit *)
+    exfalso.
+    assert (Hnc : has_no_cache_without_params c = true).
+    { destruct (m_public c); [discriminate|]. destruct (m_must_revalidate c); [discriminate|].
+      cbn [orb] in *. rewrite Eperm in Hperm. rewrite orb_false_r in Hperm. now apply andb_prop in Hperm. }
+    apply (second_revalidate_always cf (first_entry cf h q p now) q (now + gap)); [| |exact Hhit].
+    + rewrite (first_entry_always cf h q p now c Hi Hc), Hnc. reflexivity.
+    + now apply first_entry_negcached.
+Qed.
+
+(* ... and the hypothesis on negative_ttl is needed: with negative caching configured, an authenticated 404 carrying only
+   no-cache is served as a negative hit (checkNegativeHit precedes refreshCheck). Not the default configuration. *)
+Definition wit_cf : config :=
+  {| negative_ttl := 300; minimum_expiry_time := 60; conf_max_stale := 604800; r_min := 0; r_pct_ppm := 200000;
+     r_max := 259200; r_max_stale := -1 |}.
+Definition wit_q : request :=
+  {| q_method := [71;69;84]%N; q_cc_vals := []; q_pragma_vals := []; q_has_authorization := true; q_has_userinfo := false;
+     q_ims := false |}.
+Definition wit_p (status : N) (ccv : list bytes) : reply :=
+  {| p_status := status; p_cc_vals := ccv; p_pragma_vals := []; p_date := Some 1700000000; p_expires := ExpAbsent;
+     p_last_modified := None; p_content_type := None; p_content_length := 5 |}.
+Theorem authorization_negative_ttl_witness :
+  two_requests wit_cf plain_hstate wit_q (wit_p 404 [d_no_cache]) 1700000000 1 = Hit.
+Proof. vm_compute. reflexivity. Qed.
